@@ -54,7 +54,12 @@ def token(s1, s2):
 
 def behaviour_line(states, nobjs):
     toks = [token(a, b) for a, b in zip(states, states[1:])]
-    return "%d %d %s" % (len(states[0]["pc"]), nobjs, " ".join(toks))
+    # threads that start paused in the model are paused first in the real run
+    pre = []
+    for t, l in enumerate(states[0]["loc"]):
+        if l["paused"]:
+            pre += ["%dP" % (t + 1), "%dF" % (t + 1)]
+    return "%d %d %s" % (len(states[0]["pc"]), nobjs, " ".join(pre + toks))
 
 
 _RE_STATE = re.compile(r"^State \d+: .*?$\n((?:^(?:/\\|  ).*$\n?)+)", re.M)
@@ -71,6 +76,9 @@ QUICK_MC = ["fix_421", "fix_412", "fix_241", "fix_331", "fix_322", "fix_222", "f
 QUICK_MC6 = ["r6_53", "r6_44"]
 THOROUGH_MC = QUICK_MC + ["fix_332", "fix_2111", "fix_64"]
 THOROUGH_MC6 = QUICK_MC6 + ["r6_222", "r6_64"]
+# configurations of Qsbr.tla with one protection removed: TLC must refute each; the
+# counterexample is replayed on the real code (killer schedule)
+KILLER_CFGS = ["pinned_421", "kill_orphan_mode", "kill_unreg_inprogress", "kill_unreg_seen_epoch"]
 QUICK_COVER = ["cov_22", "cov_41", "cov_32", "cov_211", "cov_311"]
 THOROUGH_COVER = QUICK_COVER + ["cov_221", "cov_33"]
 
@@ -196,30 +204,32 @@ def run(prop, tier, seed):
         mcs = QUICK_MC6 + ["fix_222"] if tier == "quick" else THOROUGH_MC6 + QUICK_MC
     import gen_behaviours
     covers = QUICK_COVER if tier == "quick" else THOROUGH_COVER
-    jobs = [(c, False) for c in mcs] + [("pinned_421", True)]
+    jobs = [(c, False) for c in mcs + ["paused_132"]] + [(c, True) for c in KILLER_CFGS]
 
     def mc(job):
         c, kind = job
         return job, vlib.tlc("QsbrMC", "cfg/Qsbr/%s.cfg" % c, workers=6, deadlock=False, timeout=3000, xmx="12g")
     gen = dist = 0
     killer = None
+    killers = {}
     for (c, kind), r in vlib.parallel_map(mc, jobs, workers=4):
         if r.error:
             raise vlib.CheckBroken(r.error)
         if kind is True:
             if r.violation is None:
-                log("note: pinned_421 (unregister_thread as in the pinned commit) no longer violates")
+                log("note: %s is no longer refuted by TLC" % c)
+                killers[c] = None
             else:
-                killer = parse_counterexample(r.out)
+                killers[c] = behaviour_line(parse_counterexample(r.out), 1)
+                if c == "pinned_421":
+                    killer = parse_counterexample(r.out)
             continue
         if r.violation:
             raise vlib.CheckBroken("Qsbr model %s violates %s" % (c, r.violation))
         gen += r.generated
         dist += r.distinct
     # ---- 2. behaviours to replay
-    inputs = []
-    if killer:
-        inputs.append(behaviour_line(killer, 1))
+    inputs = [k for k in killers.values() if k]
     cover_stats = {}
 
     def cover(c):
@@ -281,7 +291,7 @@ def run(prop, tier, seed):
         "samples": inputs[:2] + inputs[-1:],
         "model_configs": mcs,
         "model_distinct_states": dist, "model_generated_states": gen,
-        "killer_schedule_of_pinned_unregister_thread": behaviour_line(killer, 1) if killer else None,
+        "killer_schedules": killers,
         "edge_cover_replays": cover_stats,
         "replayed_behaviours": lsn, "replayed_in_lock_step": lsok,
         "executions_rejected": nrej,
